@@ -69,9 +69,9 @@ META = dict(
                  "or resolves a class), so a payload stored earlier is judged with the flags measured at the load; a step that loads "
                  "a payload whose original class OBJECT has been replaced under its name since is compared with the model only",
                  "a store is re-entered (a failed TaskiqResult among exception args / attributes, hooks storing a result, "
-                 "also on a helper thread the hook waits for) only while the outer store is on an ACYCLIC chain: re-entry on "
-                 "a cyclic chain is finding D12 (proposed signature reentrant_store_on_cyclic_chain, corpus d12_*.json), not "
-                 "generated; two stores racing on free-running threads are not generated (non-deterministic)",
+                 "also on a helper thread the hook waits for) on acyclic and cyclic chains alike (the family 'reent' itself "
+                 "builds acyclic graphs, the post-pass over the other families any graph); two stores racing on free-running "
+                 "threads are not generated (non-deterministic)",
                  "a stage (one store or one load) is declared hung when every thread of the supervised process has been "
                  "asleep without consuming CPU time for 1.4 s after a grace period of 0.6 s (deadlock), or after 30 s of CPU "
                  "time / 240 s of wall time",
@@ -141,10 +141,9 @@ A_REENTRANT = A_RESULT + A_HOOK + A_THREAD
 REENT_CLS = ["ChildTaskFailed", "LocalChildFailed", "ReentStr", "LocalReentStr", "ReentReduce", "ReentReduceRaises",
              "ThreadReduceExc", "LoadsResult", "ProbeErr"]
 REENT_CLS_ACTIVE = [c for c in REENT_CLS if c != "ProbeErr"]
-# FINDING (proposed, see notes/C19.md "D12"): on the unchanged tree a re-entered store clear()s the cycle guard of the
-# outer one, so a CYCLIC chain through a re-entering node recurses without bound. Re-entering values are therefore put on
-# acyclic graphs only; the minimal failing input is corpus/C19/d12_*.json (run only once the finding is registered).
-D12_SIGNATURE = "reentrant_store_on_cyclic_chain"
+# Defect D15 of the pinned snapshot (see notes/C19.md): a re-entered store clear()ed the cycle guard of the outer one, so a
+# CYCLIC chain through a re-entering node recursed without bound. Repaired in /repo c423bc1; the minimal input is an ordinary
+# corpus entry (corpus/C19/d15_*.json) and re-entering values are generated on cyclic graphs too.
 
 
 def gen_arg(r, surr=True):
@@ -320,21 +319,18 @@ def put_value(r, s, kind):
 def reentrify(r, nodes, p=.03, force=False):
     """post-pass with its OWN rng (the underlying generators' streams are untouched): with probability p the graph gets
     1..3 values that are taskiq / pydantic objects or whose hooks store a result themselves - as an argument, as an
-    instance attribute, or by the class of the exception - at any position. On a graph with a reachable cycle only the
-    kinds that do not re-enter the store are used (see D12_SIGNATURE)."""
+    instance attribute, or by the class of the exception - at any position, on cyclic graphs as well (a re-entered store on
+    a cyclic chain was defect D15 of the pinned snapshot - the nested call reset the cycle guard - repaired in /repo c423bc1)."""
     if not nodes or (not force and r.random() >= p):
         return nodes
     case = dict(nodes=nodes)
-    cyc = has_cycle(case)
     rs = reach(case)
     for _ in range(r.choice([1, 1, 2, 3])):
         s = nodes[r.choice(rs)] if r.random() < .85 else r.choice(nodes)
         if s["cls"] in SHADOW:
             continue
         k = r.random()
-        if cyc:
-            put_value(r, s, r.choice(A_MODEL))
-        elif k < .20 and s["cls"] not in ARITY and s["cls"] not in FIXED:
+        if k < .20 and s["cls"] not in ARITY and s["cls"] not in FIXED:
             s["cls"], s["ctor_n"] = r.choice(REENT_CLS), 0
         elif k < .35:
             s["res_attr"] = r.choice(A_RESULT + ["resok"])
@@ -710,20 +706,11 @@ def pickle_mixin_base_not_exception(f):
     return s.get("enc") == "pickle" and s.get("outcome") == "notexc" and bool(s.get("mixin_first"))
 
 
-def reentrant_store_on_cyclic_chain(f):
-    """exactly: the PICKLE store raises RecursionError, the chain reachable from the task's exception (cause / unsuppressed
-    context) is cyclic, and a node on it carries a value that stores a result itself (a TaskiqResult with an error among the
-    arguments / attributes, or a hook that does) - the re-entered prepare_exception clears the outer call's cycle guard"""
-    s = f.get("sig") or {}
-    return (s.get("enc") == "pickle" and s.get("stage") == "store" and s.get("exc") == "RecursionError"
-            and bool(s.get("reentrant_reachable")) and bool(s.get("cyclic")))
-
-
+# (finding D15 `reentrant_store_on_cyclic_chain` is repaired in /repo c423bc1: no predicate)
 # (finding D11 `falsy_exception_in_chain` is repaired in /repo 18e0da2: no predicate - falsy exception objects are ordinary
 # inputs, and a failure on one is a VIOLATION like any other)
 SIGNATURES = dict(surrogate_str_json_text=surrogate_str_json_text, surrogate_key_json_dict=surrogate_key_json_dict,
-                  pickle_mixin_base_not_exception=pickle_mixin_base_not_exception,
-                  reentrant_store_on_cyclic_chain=reentrant_store_on_cyclic_chain)
+                  pickle_mixin_base_not_exception=pickle_mixin_base_not_exception)
 
 
 # --------------------------------------------------------------------------- run
